@@ -9,9 +9,10 @@
     failed, and is followed by boundary queries (which may fill the caches).
     The operations are those of the address manager: new account, imported
     (watch-only) account, rename, next / extend addresses, mark used, set
-    synced-to, set birthday (block), import key / script, reads, and - not
-    database operations, their effect on memory is immediate whatever becomes
-    of the transaction - Lock, Unlock, InvalidateAccountCache.
+    synced-to, set birthday (block), import key / script, convert to
+    watching-only, reads, and - not database operations, their effect on memory
+    is immediate whatever becomes of the transaction - Lock, Unlock,
+    InvalidateAccountCache.
     [observe m d q] is the answer to query [q] of a manager with memory [m] on
     database [d]; [restart m d] is the memory of a manager freshly opened on [d]
     and brought to the lock state of [m] (what a locked manager can say is
@@ -156,6 +157,7 @@ Theorem C08_refuted_at_K : forall P,
   hits true w_evict_reload (QProps 0) /\       (* evicted, loaded again from the uncommitted row *)
   hits (p_ee P) w_stale_callback (QProps 0) /\ (* committed: stale OnCommit after an eager extend *)
   hits true w_synced_nil QSynced /\            (* committed: SetSyncedTo(nil) time stamp *)
+  hits true w_convert (QProps imported_acct) /\   (* watching-only in memory, conversion rolled back *)
   (p_ee P = true ->
    let s := final P w_extend (opened d_wit) in
    (run_tx P (issue_tx 0 false 1) s).2.1 <> (run_tx P (issue_tx 0 false 1) (restarted s)).2.1) /\
@@ -166,7 +168,7 @@ Proof.
   intros P. cbv zeta.
   destruct (witnesses_in_K P) as (K1 & K2 & K3 & _ & HK & _). simpl in HK.
   repeat (apply andb_true_iff in HK as [?HK0 HK]).
-  destruct (witnesses_diverge P) as (D1 & D2 & D3 & D4 & D5 & D6 & D7 & D8 & D9 & D10 & D11 & _ & D13 & D14).
+  destruct (witnesses_diverge P) as (D1 & D2 & D3 & D4 & D5 & D6 & D7 & D8 & D9 & D10 & D11 & _ & D13 & D14 & D15).
   destruct (witnesses_issue_differs P) as (_ & I1 & _ & I2 & _).
   split; [apply wf_created|].
   repeat split; try assumption;
@@ -242,6 +244,25 @@ Example C08_nonvacuous_outside_K : forall rb,
   observe (mem_of s) (disk_of s) (QLast 2 false) = ALast (Chain 2 false 8) 3 287454020 /\
   observe (mem_of s) (disk_of s) (QLookup (Chain 1 true 4)) = AAddr (Chain 1 true 4) 1 true false false 4 0.
 Proof. intros []; vm_compute; repeat split. Qed.
+
+(** A committed conversion to watching-only, then issuance and extension (public
+    derivation): outside K; next indices, names and addresses are what they
+    were; NewAccount, Lock and Unlock are refused; every account says
+    IsWatchOnly - and so does the restart. *)
+Example C08_nonvacuous_converted : forall P,
+  let h := [ {| tx_ops := [ONext 0 false 4; ONext 0 true 1]; tx_fate := Commit; tx_queries := [QProps 0] |};
+             {| tx_ops := [OConvert; ONewAccount 5; OUnlock; OLock]; tx_fate := Commit; tx_queries := [QProps 0] |};
+             {| tx_ops := [ONext 0 false 1; OImport (ImpKey 0) None true]; tx_fate := Commit;
+                tx_queries := [QProps imported_acct] |} ] in
+  in_K P h = false /\ times_ok h = true /\
+  let s := final P h (opened d_wit) in
+  (run_hist P h (opened d_wit)).2 =
+    [([AAddrs [Chain 0 false 0; Chain 0 false 1; Chain 0 false 2; Chain 0 false 3]; AAddrs [Chain 0 true 0]],
+      [AProps 2 4 1 0 None false]);
+     ([AOk; AErr EWatchingOnly; AErr EWatchingOnly; AErr EWatchingOnly], [AProps 2 4 1 0 None true]);
+     ([AAddrs [Chain 0 false 4]; AAddrs [ImpKey 0]], [AProps 1 0 0 1 None true])] /\
+  observe (restart (mem_of s) (disk_of s)) (disk_of s) (QProps 0) = AProps 2 5 1 0 None true.
+Proof. intros [[] [] []]; vm_compute; repeat split. Qed.
 
 (** While the manager is locked, a default account says IsWatchOnly - and so
     does the locked restart; NewAccount is refused. *)
